@@ -44,6 +44,11 @@ AUDITED_CALLERS = {
     "SongBuilder::into_song|panic:panic": {"SongBuilder::handle_song_field", "SongBuilder::finish"},
 }
 
+# audited assertions whose condition is machine-checked: key -> (field of self, predicate whose true edge panics)
+AUDITED_ASSERTS = {
+    "SongBuilder::into_song|panic:panic": ("url", "alloc::string::String::is_empty"),
+}
+
 TAG_UNWRAP_FNS = {
     "mpd_client::responses::song::SongBuilder::handle_song_field",
     "mpd_client::responses::list::List::from_frame",
@@ -235,6 +240,19 @@ def run(rep, progs, tier):
             if aud is not None:
                 # an audited reason that is an argument about the callers is checked against the call graph
                 allowed = AUDITED_CALLERS.get(k)
+                if k in AUDITED_ASSERTS:
+                    # ... and the asserted condition is exactly the predicate the callers' guards establish
+                    from ..common import ref_field_of_local, switch_atom
+                    fld, pred = AUDITED_ASSERTS[k]
+                    same = False
+                    for bb2 in range(len(s.body.blocks)):
+                        a = switch_atom(s.body, bb2)
+                        if a and a["kind"] == "call" and pred in a["names"] and a["true"] == s.bb and a.get("args") and \
+                                ref_field_of_local(s.body, op_local(a["args"][0])) == fld:
+                            same = True
+                    rep.check(same, "C12.inventory", inst + " condition", s.where,
+                              "the assertion in %s is no longer `!self.%s.is_empty()` (the test its callers make before calling it): a stricter condition "
+                              "— a trimmed, lower-cased or otherwise derived value — can fail on server-chosen text although the guards passed" % (s.fn, fld))
                 if allowed is not None:
                     from ..callgraph import short
                     root = prog.bodies.get(s.body.root, s.body)
@@ -260,8 +278,15 @@ def run(rep, progs, tier):
         rep.floor("C12.inventory", "%s/Tag::try_from(..).unwrap() sites" % cfg, n_tag_unwrap, 0)
 
 
+# functions whose `&str` parameter (by index) is a frame key handed down by their callers (reviewed)
+KEY_PARAMS = {"mpd_client::responses::song::SongBuilder::handle_song_field": 2}
+
+
 def is_tag_try_from_unwrap(site):
-    """The unwrapped Result is the direct result of <Tag as TryFrom<&str>>::try_from."""
+    """The unwrapped Result is the direct result of <Tag as TryFrom<&str>>::try_from applied to a frame *key*: the `.0` of a
+    (key, value) pair, or the reviewed key parameter of a builder method.  Only keys are restricted by the protocol parser's
+    field-name alphabet; a field *value* is arbitrary text, and unwrapping its conversion panics on a server-chosen string."""
+    from .. import terms
     body = site.body
     t = body.blocks[site.bb]["t"]
     a = op_local(t["args"][0]) if t["args"] else None
@@ -273,6 +298,17 @@ def is_tag_try_from_unwrap(site):
             if f is None:
                 return False
             names = callee_names(ct)
-            return any("TryFrom" in n and n.endswith("::try_from") for n in names) and \
-                any("mpd_client::tag::Tag" in x for x in f.get("args", []) + [f.get("inst_name", "")])
+            if not (any("TryFrom" in n and n.endswith("::try_from") for n in names) and
+                    any("mpd_client::tag::Tag" in x for x in f.get("args", []) + [f.get("inst_name", "")])):
+                return False
+            l = op_local(ct["args"][0]) if ct["args"] else None
+            if l is None:
+                return False
+            x = terms.strip_views(terms.simplify(terms.term_of_local(body, l, depth=12)))
+            if isinstance(x, tuple) and x and x[0] == "field" and len(x) > 3 and x[3] == "0":
+                return True                                   # pair.0 = the key
+            if isinstance(x, tuple) and x and x[0] == "free":
+                root = norm(site.body.prog.bodies.get(site.body.root, site.body).name)
+                return KEY_PARAMS.get(norm(site.body.name), KEY_PARAMS.get(root)) == x[1]
+            return False
     return False
